@@ -17,7 +17,8 @@ CONSTANTS FallbackAll, WriteOnAbort
 MCCatalogue == [vulnerabilities |-> <<"v1", "v2">>, optimizations |-> <<"o1", "o2">>, qa |-> <<"q1">>]
 MCRes == [c1 |-> [v1 |-> <<3>>, o1 |-> <<5, 9>>, q1 |-> <<2>>],
           c2 |-> [v1 |-> <<4>>, o2 |-> <<1>>],
-          c3 |-> [o1 |-> <<>>]]
+          c3 |-> [o1 |-> <<>>],
+          c7 |-> [o1 |-> <<7>>, q1 |-> <<4>>]]     \* a file without a version pragma: o2 (version-gated) finds nothing in it
 Nm(text, sol, tsol) == [text |-> text, sol |-> sol, tsol |-> tsol]
 F(n, c) == [kind |-> "file", name |-> n, content |-> c]
 Dr(n, es) == [kind |-> "dir", name |-> n, tree |-> [entries |-> es]]
@@ -25,7 +26,8 @@ MCTreeOf ==
     [P |-> [entries |-> <<F(Nm("A.sol", TRUE, FALSE), "c1"),
                           Dr(Nm("lib.sol", TRUE, FALSE), <<F(Nm("A.sol", TRUE, FALSE), "c2"), F(Nm("T.t.sol", TRUE, TRUE), "c1")>>),
                           F(Nm("notes.txt", FALSE, FALSE), "c1"),
-                          F(Nm("C.sol", TRUE, FALSE), "c3")>>],
+                          F(Nm("C.sol", TRUE, FALSE), "c3"),
+                          F(Nm("N.sol", TRUE, FALSE), "c7")>>],
      contracts |-> [entries |-> <<F(Nm("B.sol", TRUE, FALSE), "c2")>>],
      E |-> [entries |-> <<>>]]
 
